@@ -122,6 +122,15 @@ class Chk:
     def fresh(self):
         return build(self.spec, self.dims, self.form)
 
+    def empties_at(self, d):
+        """Trigger feature: some, but not all, fibers at depth d hold no
+        non-default leaf (the library's isEmpty())."""
+        fs = R.fibers_at(self.spec, self.depth, d)
+        e = [not tree_content(s, self.depth - d) for _, s in fs]
+        if d > 0 and any(e) and not all(e):
+            return {"some_fiber_empty_at_depth"}
+        return set()
+
     def V(self, fam, sym, feats, exp, obs):
         self.out.append((fam, sym, self.base | set(feats), exp, obs))
 
@@ -193,7 +202,7 @@ def g_swizzle(k):
                 k.run("T.swizzleRanks", feats | {"inverse"}, lambda: r.swizzleRanks(list(ids)), C, D,
                       what="roundtrip-content")
         for d in range(D - 1):
-            feats = {"d=%d" % d}
+            feats = {"d=%d" % d} | k.empties_at(d)
             r = k.run("T.swapRanks", feats, lambda: k.fresh().swapRanks(depth=d), R.image_swap(C, d), D)
             if r is not None:
                 k.run("T.swapRanks", feats | {"inverse"}, lambda: r.swapRanks(depth=d), C, D,
@@ -246,8 +255,8 @@ def g_flatten(k):
                 r = k.run("T.flattenRanks", feats,
                           lambda: k.fresh().flattenRanks(depth=d, levels=l, coord_style=style), exp, nd)
                 if r is not None and style in R.INVERTIBLE:
-                    k.run("T.unflattenRanks", feats, lambda: r.unflattenRanks(depth=d, levels=l), C, D,
-                          what="roundtrip-content")
+                    k.run("T.unflattenRanks", feats | k.empties_at(d), lambda: r.unflattenRanks(depth=d, levels=l),
+                          C, D, what="roundtrip-content")
             else:
                 r = k.run("F.flattenRanks", feats,
                           lambda: k.fresh().flattenRanks(depth=d, levels=l, style=style), exp, nd)
@@ -281,11 +290,7 @@ def _fn_max(ps):
     return max(ps)
 
 
-def _fn_sum(ps):
-    return sum(ps)
-
-
-MERGE_FNS = (("default", None, sum), ("sum", _fn_sum, sum), ("max", _fn_max, max))
+MERGE_FNS = (("sum", None, sum), ("max", _fn_max, max))     # merge_fn=None is the documented sum
 
 
 def g_merge(k):
@@ -433,8 +438,10 @@ def _universe(name):
         return (2, 2), t2(2, 2)
     if name == "T3(2,2,2)":
         return (2, 2, 2), t3(2, 2, 2)
-    if name == "T4c(2,2,2,2)":
-        return (2, 2, 2, 2), R.t4c_specs((2, 2, 2, 2))
+    if name == "T3(2,2,2;-v)":
+        return (2, 2, 2), t3(2, 2, 2, "-v")
+    if name == "T4c(2,2,2,2;<=4|>=15)":
+        return (2, 2, 2, 2), R.t4c_specs((2, 2, 2, 2), at_most=4, at_least=15)
     raise ValueError(name)
 
 
@@ -466,12 +473,12 @@ def run(ctx):
     allf = ("ts", "te", "f")
     if q:
         plan = [("T2(3,2)", allf, GROUPS, None),
-                ("T3(2,2,2)", ("ts",), GROUPS, None)]
+                ("T3(2,2,2;-v)", allf, GROUPS, None)]
     else:
         plan = [("T2(3,2)", allf, GROUPS, None),
                 ("T2(3,3)", allf, GROUPS, None),
                 ("T3(2,2,2)", allf, GROUPS, None),
-                ("T4c(2,2,2,2)", ("ts", "f"), GROUPS, time.time() + 420)]
+                ("T4c(2,2,2,2;<=4|>=15)", ("ts", "f"), GROUPS, 420)]
     only = getattr(ctx, "only", None)
     ctx.bounds = {
         "universes": [p[0] + " as " + "/".join(p[1]) for p in plan],
@@ -492,4 +499,4 @@ def run(ctx):
     for name, forms, groups, deadline in plan:
         if only and not any(name.startswith(o) for o in only):
             continue
-        ctx.shards(shard_tree, (name, forms, groups, deadline))
+        ctx.shards(shard_tree, (name, forms, groups, None if deadline is None else time.time() + deadline))
